@@ -51,7 +51,7 @@ CHECKS.update({
  "C17": dict(
   text="Panic-freedom (panic!, unwrap/expect, index, arithmetic overflow, debug_assert!, unreachable!) of every worterbuch function reached by the C01, C02, "
        "C04 and C06 harness families for all their symbolic inputs, plus the explicit clean-tree invariants (store tree and lock tree) after every operation.",
-  note=BASE + "Outside: malformed lines (decoder), task isolation between sessions (tokio), resource exhaustion, code not reached by those families.", ref="4 C17"),
+  note=BASE + "Outside: malformed lines (decoder), task isolation between sessions (tokio), resource exhaustion, code not reached by those families. Added after seeded change C17-1: c17_rejected_deep_cset_then_delete_{ab,aab,bab} (a rejected versioned cset on a key with two / three missing path levels, then a delete elsewhere: the developers' is_clean assertion holds, ls shows no ghost).", ref="4 C17"),
 })
 
 CHECKS.update({
@@ -63,7 +63,8 @@ CHECKS.update({
        "subscriber routing relation of C04 for all patterns of <= 2 segments.",
   note=BASE + "async/.await de-sugared lexically for the Kani build (gen/deasync.py), counterexamples replayed on the original async code with real tokio. "
        "Decisions that depend on a CAS version read back from the tree are made on literal versions (the engine does not fold them; all 2^64 versions are C02's). "
-       "Outside: per-subscription forwarding tasks and socket writers (protocol v0, tokio::spawn), back-pressure on a full queue (pruned), extended_monitoring, import (JSON text).",
+       "Outside: per-subscription forwarding tasks and socket writers (protocol v0, tokio::spawn), back-pressure on a full queue (pruned), extended_monitoring, import (JSON text). "
+       "Added after seeded change C03-3: c03_unsubscribe_longer_spares_shorter_{key,pattern} (unsubscribing the LONGER of two nested subscriptions leaves the shorter one served and still known).",
   ref="4 C03"),
 })
 
@@ -117,7 +118,7 @@ CHECKS.update({
        "called iff the token grants THE privilege that kind needs; otherwise Err Unauthorized with the request's id, no core call, session continues; without a token nothing that "
        "needs a privilege reaches the core; two requests on one session are decided independently of each other.",
   note=BASE + "Outside the claim: token validation (jsonwebtoken is a types-only model; signature / expiry checks are not encoded; a session counts as authorized when the "
-       "handlers are handed claims), keys other than a / a/# / ? at the call sites, cset at the call site (memory cap, tier=manual), patterns of depth 4, the HTTP endpoints.", ref="A C15"),
+       "handlers are handed claims), keys other than a / a/# / ? at the call sites, cset at the call site (memory cap, tier=manual), patterns of depth 4, the HTTP endpoints. Added after seeded change C15-3: c15_contain_segment_boundaries decides containment for multi-character segments (grant ab/# vs abc, abc/x, a, ...), since every generated menu uses one-character segments and cannot see a matcher that compares by string prefix instead of by segment.", ref="A C15"),
  "C16": dict(
   text="The real PStateAggregatorState::{aggregate_loop, aggregate, send_current_state, send_set_event, send_deleted_event, key_already_buffered, schedule_send} driven event by event with the timer "
        "as an environment event (the model `spawn` registers the timer task, the harness decides when it runs and delivers the tick as aggregate_loop does): for generated sequences "
@@ -133,7 +134,7 @@ CHECKS.update({
        "(Election::process_peer_election_message / process_vote_response / is_part_of_cluster): over generated message sequences (distinct votes, duplicates, strangers, heartbeats) and "
        "a one-step harness with symbolic vote count and quorum, the node becomes leader exactly when own vote + votes of DISTINCT CONFIGURED peers reach the quorum.",
   note=BASE + "Bounds: 4 configured peers, sequences of 4 messages with quorum 3, one symbolic step with quorum 1..5. Outside: UDP transport, timeouts / election rounds over time, "
-       "two candidates racing (schedules), the leader's heartbeat loop, process supervision.", ref="A C19"),
+       "two candidates racing (schedules), the leader's heartbeat loop, process supervision. NOT covered (seeded change C19-3 is undecided, exit 2): the start of an election round (election_round: reset of the vote count and of the list of peers still allowed to vote) - the round function is a four-branch select! over socket, timer, config channel and shutdown, and peer messages arrive as JSON text; the harnesses call process_peer_election_message directly and set votes_in_my_favor themselves, so a change that restructures those fields makes the harness crate fail to build (inconclusive, never a pass).", ref="A C19"),
 })
 
 CHECKS.update({
@@ -163,7 +164,7 @@ CHECKS.update({
        "(k, k+3, k+6)), SHA-256 + hex an injective stand-in (assumption: no collisions); format! inside v3.rs is shadowed (only \"{}.tmp\" modelled); Worterbuch / Config / CloneableWbApi are stand-ins "
        "(export, from_persistence, apply_grave_goods, apply_last_wills record what they are given). Counterexamples are replayed on the ORIGINAL async v3.rs with REAL tokio::fs in a scratch directory, "
        "REAL serde_json text and REAL SHA-256. Outside the claim: `periodic`'s select! loop and PERSISTENCE_LOCKED, the v2 / v1 fallback loaders, sequences of two crashes, concurrent periodic + shutdown "
-       "flushes, the real store behind export / from_persistence (C09), ReDB (C18).", ref="A C10"),
+       "flushes, the real store behind export / from_persistence (C09), ReDB (C18). Open finding KF-C10-first-flush-store-without-registrations (thorough tier, reported as KNOWN-FINDING): a kill inside the FIRST flush ever, after the store files and before the registrations are complete, restores that store without grave goods / last wills. NOT covered (seeded change C10-2 is missed): sequences of two crashes (crash -> restart -> flush -> crash) - one crash per harness is the bound.", ref="A C10"),
 })
 
 NA = {
